@@ -21,3 +21,17 @@ Proof.
   intros. simpl. f_equal. induction st as [|[[s0 n0] c] r IH]; simpl; [reflexivity|].
   destruct ((s0 =? s) && (n0 =? n)) eqn:E; simpl; [assumption|]. rewrite E. assumption.
 Qed.
+
+(* var a = {}; a.a = a : no amount of fuel lets export finish *)
+Definition cyclic_heap : heap := [[([97], HRef 0)]].
+Lemma export_cyclic_diverges : forall fuel, gexport fuel cyclic_heap (HRef 0) = None.
+Proof.
+  induction fuel as [|f IH]; [reflexivity|].
+  simpl. rewrite IH. reflexivity.
+Qed.
+
+(* an acyclic graph {a: {b: 1}, c: 2} is exported once the fuel covers its depth *)
+Lemma export_acyclic_example :
+  gexport 3 [[([97], HRef 1%nat); ([99], HNum 2)]; [([98], HNum 1)]] (HRef 0) =
+  Some (GNode [([97], GNode [([98], GLeaf 1)]); ([99], GLeaf 2)]).
+Proof. vm_compute. reflexivity. Qed.
